@@ -851,7 +851,16 @@ def select(behs, n, rnd, forced=()):
         covered |= feats[i]
     rest = [i for i in range(len(behs)) if i not in taken]
     rnd.shuffle(rest)
-    chosen += rest[:max(0, n - len(chosen))]
+    # fill: a third of the budget prefers the rare deep shapes (a successful GLINE,
+    # a restart from a snapshot that folded the config in force), the rest is uniform
+    def rare(i):
+        return any(f[0] == "shape" for f in feats[i]) + 2 * any(f[:3] == ("Msg", "gline", "ok") for f in feats[i])
+    room = max(0, n - len(chosen))
+    pref = sorted(rest, key=lambda i: -rare(i))[:room // 3]
+    pref = [i for i in pref if rare(i) > 0]
+    chosen += pref
+    ps = set(pref)
+    chosen += [i for i in rest if i not in ps][:max(0, n - len(chosen))]
     return [behs[i] for i in chosen], covered
 
 
